@@ -83,6 +83,7 @@ def find_get(t, d):
 def run(chk, tier):
     prog, info = common.program("all")
     common.note_extraction(chk, info, prog)
+    common.vacuity(chk, ['R-LIN', 'R-WIRE'])
     chk.explanation = ("R-LAYOUT on the 24-byte volume header (size_of = wire size, used to skip it). Tiling is proved as an induction over the splitting loop's "
                        "value-numbered summary with the list algebra on bytes: content = concat(records) ++ remaining equals the input at entry, every iteration "
                        "moves a prefix of `remaining` into one new record (split(x, n) = (a, b) with a ++ b = x) and the loop ends when nothing remains; a record's "
